@@ -165,12 +165,14 @@ def halve (l : Layout) : Layout :=
   | [] => [⟨0, 0, 0⟩]   -- layout_t<0>::halve() layout.hpp:1101-1103
   | d :: sub => ⟨if d.nelems.tdiv 2 ≠ 0 then d.nelems.tdiv 2 else 1, 0, d.nelems⟩ :: (take (d :: sub) (d.size.tdiv 2))
 
-/-- `layout_t::scale(num, den)` layout.hpp:985-989 (the `assert(offset_ == 0)` is `scaleAsserts`). -/
+/-- `layout_t::scale(num, den)` layout.hpp:985-989: stride, offset and nelems are all multiplied by `num/den`
+    (the two assertions are `scaleAsserts`). -/
 def scale (l : Layout) (num den : Int) : Layout :=
-  l.map fun d => ⟨(d.stride * num).tdiv den, d.offset, (d.nelems * num).tdiv den⟩
+  l.map fun d => ⟨(d.stride * num).tdiv den, (d.offset * num).tdiv den, (d.nelems * num).tdiv den⟩
 
+/-- `assert((stride_*num) % den == 0)`, `assert((offset_*num) % den == 0)` at every level -/
 def scaleAsserts (l : Layout) (num den : Int) : Bool :=
-  l.all fun d => ((d.stride * num).tmod den == 0) && d.offset == 0
+  l.all fun d => ((d.stride * num).tmod den == 0) && ((d.offset * num).tmod den == 0)
 
 /-- `layout_t::operator()(i, j, ...)` layout.hpp:775-784 via `at_aux_`:
     each level contributes `offset_ + idx*stride_`; the terminal `layout_t<0>::operator()()` returns
